@@ -35,6 +35,9 @@ CONFIGS = {
     # monitor control on top of must_if< Errors >::control (C05, C08)
     "mif4": ("cl0", ["MON_MUSTIF", "MON_VARIANT=4"]),
     "mif1": ("asan0", ["MON_MUSTIF", "MON_VARIANT=1"]),
+    # the run is started from a destructor during stack unwinding (std::uncaught_exceptions() > 0 throughout)
+    "infl4": ("cl0", ["MON_INFLIGHT", "MON_VARIANT=4"]),
+    "inflcov": ("cl0", ["MON_INFLIGHT", "MON_CLIENT=1", "MON_VARIANT=4"]),
     "covmif": ("cl0", ["MON_CLIENT=1", "MON_MUSTIF", "MON_VARIANT=1"]),     # coverage<> around a control whose failure() raises
     "treemif": ("cl0", ["MON_TREE", "MON_MUSTIF", "MON_VARIANT=0", "MON_SELV=1"]),   # parse_tree around such a control
     "ana": ("cl0", ["MON_ANA", "MON_VARIANT=0"]),      # analyze< G >() + fuel-limited monitored run on reference loop witnesses (C11)
@@ -62,15 +65,16 @@ CONFIGS = {
 # standard corpus sizes: profile -> (quick count, thorough count)
 SIZES = {
     "ctx": (348, 0),        # quick: every (template, slot) x 4 key gadgets, all six inherited-mode contexts each; 0 = all 8 gadgets
-    "core": (100, 1200),
-    "conv": (100, 1200),
-    "exc": (80, 800),
-    "act": (80, 800),
-    "tree": (60, 600),
-    "state": (100, 1000),
+    "ctxf": (392, 0),       # filler matrix: (template, slot, filler in eof/success/failure/any/dup) x 2 gadgets; 0 = all 8 gadgets
+    "core": (100, 400),
+    "conv": (100, 400),
+    "exc": (80, 320),
+    "act": (80, 320),
+    "tree": (60, 240),
+    "state": (100, 400),
     "cyc": (900, 0),
-    "buf": (100, 800),
-    "contrib": (60, 600),
+    "buf": (100, 300),
+    "contrib": (60, 240),
     "atoms": (42, 210),
     "chain": (0, 0),
 }
